@@ -47,8 +47,35 @@
 //! nested-loop join); queries are built with the DataFrame API instead of SQL text so that literals have
 //! exactly the right column's type.
 //!
-//! Sensitivity probes (mkpatch + mutrun, `./check C47 quick`): see the end of this header (filled in
-//! after the runs).
+//! Open findings (known_findings.json, cases under /verif/regressions/C47/c47, repairs under /verif/fixes/C47-*.diff,
+//! all of them together: C47-all-six.combined.diff). `known_signature` keeps the run going behind them; the
+//! generator also emits `lits = false` cases (no literal contexts) so the affected type pairs stay covered in
+//! projection / filter / join contexts, and the sweep removes only the offending values (`degrade`):
+//!   * `inlist-float-zero-sign` — `InListExpr` compares float bit patterns: `-0.0 IN (0.0, 5, 6, 7)` is false
+//!     although `-0.0 = 0.0` is true (`apply_cmp` normalises zeros) and the ≤ 3 item form (an OR chain) is true;
+//!     dictionary-encoded floats are not normalised by `=` either. Repairs: inlist-normalizes-float-zero +
+//!     float-zero-normalization-covers-dictionaries.
+//!   * `unwrap-cast-negative-scale` — `try_cast_literal_to_type`: `10_i128.pow(scale as u32)` with a negative
+//!     Decimal128 scale: overflow panic (debug) / multiplier 0, literal folded to 0 (release).
+//!   * `unwrap-cast-timestamp-literal-truncation` — `CAST(ts_col AS finer) op finer_literal` → `ts_col op
+//!     literal / ratio` (truncating): `ts_seconds = TIMESTAMP '1970-01-01 00:00:00.001'` is true (CLI-confirmed).
+//!   * `unwrap-cast-int32-date64` — `CAST(int32 AS Date64) op date64_literal` unwrapped with the raw
+//!     millisecond count although the cast counts days.
+//!   * `date64-min-display` — `Display for ScalarValue::Date64(i64::MIN)` panics while naming the projection.
+//! `VF_MIXED_IGNORE_KNOWN=1` lifts the exclusions (used to verify the repairs: probes/log-all-run1.txt — the five
+//! regression cases pass with the repairs; the un-excluded quick run then still failed for dictionary-encoded
+//! floats, which led to the sixth patch — and probes/log-fixes2.txt for the final round).
+//!
+//! Sensitivity probes (one env-gated patch probes/probes.diff, applied with mutrun, `VF_MUT=<p> vf-mixed c47
+//! quick`; log in probes/log-all-run1.txt) — all caught:
+//!   p1 `numerical_coercion(UInt64, signed int)` → Float64 instead of Decimal128(20,0) (precision loss at 2^63):
+//!      VIOLATION in the exhaustive sweep, 4 pairs (`i64 2^63-1 = u64 2^63` true vs exact false);
+//!   p2 `get_wider_decimal_type` (Decimal128) takes min(s1, s2) instead of max (fraction truncated):
+//!      VIOLATION at generated case 7 (`i8 9 = 9.35…` d128(38,37) true, exact oracle);
+//!   p3 `string_numeric_coercion(Utf8, numeric)` → the string type (numeric/string comparison depends on the
+//!      operand order): VIOLATION at generated case 11 (metamorphic: `a < b` false, `b > a` true).
+//! Budgets: quick 1600 generated cases + sweep 1024 pairs × 64 cells (25–60 s on the loaded 16-core box);
+//! thorough 60 000 cases + sweep × 256 cells (measured 11 min, 55 030 evaluations, 40 321 non-trivial).
 use crate::types::*;
 use arrow::array::{Array, ArrayRef, BooleanArray, Int32Array};
 use arrow::datatypes::{DataType, Field, Schema};
@@ -1165,7 +1192,7 @@ impl Property for C47 {
             .boxed()
     }
     fn budget(&self, tier: Tier) -> Budget {
-        Budget::new(tier.pick(2_400, 60_000), tier.pick(8, 16)).min_nontrivial(tier.pick(600, 10_000)).discard_cap(0.6).case_timeout(150).shrink(300, 60)
+        Budget::new(tier.pick(1_600, 60_000), tier.pick(8, 16)).min_nontrivial(tier.pick(400, 10_000)).discard_cap(0.6).case_timeout(150).shrink(300, 60)
     }
     fn rule(&self) -> String {
         "ordered pair of column types from a 32-type matrix (ints, floats, Decimal128/256 with several scales, dates, timestamps, strings, dictionary forms) x <=6 values per side from pair-specific \
